@@ -15,6 +15,10 @@ var c11Queries = []string{
 	"SELECT a, (SELECT vfault(p) AS f FROM items) AS sub FROM t WHERE a > ?",
 	"SELECT a FROM t WHERE vfault(a) > ?",
 	"SELECT DISTINCT a FROM t WHERE a > ? LIMIT 1",
+	"WITH c AS (SELECT a FROM t WHERE a > ?) SELECT a FROM c UNION ALL SELECT a FROM c",
+	"SELECT x.a AS a FROM (WITH c AS (SELECT a FROM t WHERE a > ?) SELECT a FROM c) x",
+	"SELECT a FROM t WHERE a > ? AND a IN (WITH c AS (SELECT p FROM items) SELECT p FROM c)",
+	"SELECT a, (SELECT p FROM items ORDER BY p DESC LIMIT 1) AS s FROM t WHERE a > ? ORDER BY a",
 }
 
 var faultAt, faultCalls int
